@@ -175,6 +175,8 @@ def kind_of(ts):  # noqa: C901, PLR0911
         return "scalar"
     if head in ("Any", "object"):
         return head
+    if head == "FrozenSet":
+        return "frozenset"
     if head in ITER_CERTAIN:
         return "iterable"
     if head == "Deque":
@@ -256,6 +258,13 @@ class Env:
         self.params = tuple(params)       # extra converter parameters, left to right: (name, TypeSpec)
         self.objects = objects or {}      # id -> python object used by the recipe (constants, factories, functions, FuncSpec)
         self.classes = classes or {}      # model name -> real class (used by conforms/describe/read_field only)
+        self.transparent = False          # reading of Annotated/NewType currently evaluated (see coercible())
+        self._wrappers = None
+
+    def mentions_wrappers(self, *specs):
+        if self._wrappers is None:
+            self._wrappers = any(_mentions_wrapper(f.type) for m in self.universe.values() for f in m.fields)
+        return self._wrappers or any(_mentions_wrapper(ts) for ts in specs)
 
     def model_fields(self, ts):
         spec = self.universe[ts[1]]
@@ -402,9 +411,13 @@ def _subclass(env, s, d):
 def coercible(env, s, d, sloc=None, dloc=None, top=False) -> Co:
     """the tutorial's relation; wrappers evaluated under both readings (see module docstring)"""
     opaque = _co(env, s, d, sloc, dloc, top)
-    if not (_mentions_wrapper(s) or _mentions_wrapper(d)):
+    if not env.mentions_wrappers(s, d):
         return opaque
-    transparent = _co(env, deep_strip(s), deep_strip(d), sloc, dloc, top)
+    env.transparent = True
+    try:
+        transparent = _co(env, s, d, sloc, dloc, top)
+    finally:
+        env.transparent = False
     if opaque.verdict == transparent.verdict:
         return transparent if transparent.verdict == YES else opaque
     return Co(UNSPEC, rule="wrapper transparency")
@@ -420,6 +433,8 @@ def _co(env, s, d, sloc=None, dloc=None, top=False) -> Co:  # noqa: C901, PLR091
     if cid is not None:
         func = env.objects[cid]
         return Co(YES, lambda x, ctx: func(x), rule="user coercer")
+    if env.transparent:
+        s, d = deep_strip(s), deep_strip(d)
     if same(s, d):
         # a same-type pair of models may equally be rebuilt field by field: equal description either way
         return Co(YES, _as_is, rule="same type")
@@ -511,6 +526,7 @@ def _co_model(env, s, d, top) -> Co:  # noqa: C901, PLR0912
     dst_spec, dst_fields = env.model_fields(d)
     plan = []
     verdicts = []
+    rules = []
     ambiguous = False
     for fld in dst_fields:
         link = find_link(env, s, dst_spec.name, fld, top)
@@ -519,19 +535,25 @@ def _co_model(env, s, d, top) -> Co:  # noqa: C901, PLR0912
             if fld.has_default and policy_allows(env, dst_spec.name, fld.name):
                 plan.append((fld, None, None))
                 verdicts.append(YES)
+                rules.append("unlinked optional field allowed by policy")
             else:
                 verdicts.append(NO)
+                rules.append("unlinked optional field forbidden by policy" if fld.has_default
+                             else "unlinked required field")
             continue
         if link.kind == "ambiguous":
             verdicts.append(UNSPEC)
+            rules.append("explicit link whose source predicate selects nothing")
             continue
         if link.kind in ("const", "factory"):
             plan.append((fld, link, None))
             verdicts.append(YES)
+            rules.append("link_constant")
             continue
         if link.kind == "func":
             fco = _co_function(env, s, env.objects[link.name])
             verdicts.append(fco.verdict)
+            rules.append(fco.rule)
             plan.append((fld, link, fco.fn))
             continue
         if link.kind == "param":
@@ -545,11 +567,12 @@ def _co_model(env, s, d, top) -> Co:  # noqa: C901, PLR0912
         else:
             co = _co(env, src_type, fld.type, sloc, dloc)
         verdicts.append(co.verdict)
+        rules.append(co.rule)
         ambiguous = ambiguous or co.ambiguous
         plan.append((fld, link, co.fn))
     verdict = and3(verdicts)
     if verdict != YES:
-        return Co(verdict, rule="model")
+        return Co(verdict, rule="model: " + next((r for v, r in zip(verdicts, rules) if v == verdict), "?"))
 
     def build(x, ctx):
         out = {}
@@ -671,9 +694,8 @@ def describe(env, value):  # noqa: C901, PLR0911
     if isinstance(value, RefObj):
         return ("obj", value.model, tuple((k, describe(env, v)) for k, v in value.fields.items()))
     t = type(value)
-    for name, cls in env.classes.items():
-        spec = env.universe[name]
-        if spec.kind != "typeddict" and t is cls:
+    for name, spec in env.universe.items():
+        if spec.kind != "typeddict" and t is env.classes.get(name):
             return ("obj", name, tuple((f.name, describe(env, read_field(env, spec, value, f.name))) for f in spec.fields))
     if t in (list, tuple, collections.deque):
         return (t.__name__, tuple(describe(env, x) for x in value))
